@@ -55,6 +55,10 @@ def shards(tier):
             for part in range(4):
                 out.append({'kind': 'e2e', 'vrl': v, 'spec': spec_id, 'part': part})
     out.append({'kind': 'args'})
+    # TLA+ model of the buffer machine, checked by TLC; every edge of its state graph is replayed on the real classes
+    cfgs = [(46, 7, 5)] if tier == 'quick' else [(b, g, 6) for b in (24, 26, 44, 46, 48, 68, 72) for g in (0, 7, 100)]
+    for b, g, k in cfgs:
+        out.append({'kind': 'tlc', 'B': b, 'G': g, 'MaxOps': k})
     return out
 
 
@@ -68,6 +72,8 @@ def cases(shard, tier):
         v = shard['vrl']
         for B in range(v, 3 * v + 1, 2):
             yield {'kind': 'machine', 'vrl': v, 'B': B}
+    elif shard['kind'] == 'tlc':
+        yield dict(shard)
     elif shard['kind'] == 'args':
         for ocs in (31, 30, -64, 64.5, '64', True, 64.0, 1e3, [64]) + ((None,) if tier != 'quick' else ()):
             yield {'kind': 'args', 'ocs': ocs if not isinstance(ocs, list) else {'$tuple': ocs}}
@@ -120,6 +126,8 @@ def run_case(c):
     _install_tap()
     if c['kind'] == 'machine':
         return run_machine(c)
+    if c['kind'] == 'tlc':
+        return run_tlc_conformance(c)
     if c['kind'] == 'args':
         sp = make_spec(64, 'two-frames')
         v = c['ocs']
@@ -269,3 +277,114 @@ def run_machine(c):
         uniq.setdefault(s_, d)
     return Outcome(f"machine:states={min(len(seen) // 10, 9)}x10", list(uniq.items()), True, digest=str(len(seen)),
                    extra={'nodes': len(seen), 'edges': edges})
+
+
+# ---------------------------------------------------------------------------------------------------------------------
+# model + conformance cross-check: TLA+ model (tla/OutBuf.tla) explored by TLC, every edge replayed on the real code
+# ---------------------------------------------------------------------------------------------------------------------
+def _parse_dot(text):
+    import re
+    nodes, edges = {}, []
+    for line in text.splitlines():
+        m = re.match(r'^(-?\d+) -> (-?\d+) \[label="([^"]+)"', line)
+        if m:
+            edges.append((m.group(1), m.group(2), m.group(3)))
+            continue
+        m = re.match(r'^(-?\d+) \[label="([^"]+)"', line)
+        if m:
+            st = {}
+            for part in m.group(2).split('\\n'):
+                k, v = part.replace('/\\\\', '').strip().split(' = ')
+                st[k.strip()] = {'TRUE': True, 'FALSE': False}.get(v.strip(), None)
+                if st[k.strip()] is None:
+                    st[k.strip()] = int(v)
+            nodes[m.group(1)] = st
+    return nodes, edges
+
+
+def _tlc_graph(B, G, K, policy):
+    import re
+    import shutil
+    import subprocess
+    import tempfile
+    from mc.engine import VERIF
+    d = tempfile.mkdtemp(prefix='tlc-', dir=scratch_dir())
+    try:
+        shutil.copy(os.path.join(VERIF, 'tla', 'OutBuf.tla'), d)
+        with open(os.path.join(d, 'OutBuf.cfg'), 'w') as f:
+            f.write(f'CONSTANTS B = {B}\n G = {G}\n MaxOps = {K}\n Policy = "{policy}"\nINIT Init\nNEXT Next\n'
+                    f'INVARIANT NeverOverfull\n')
+        p = subprocess.run(['tlc', '-workers', '1', '-noGenerateSpecTE', '-deadlock', '-metadir', os.path.join(d, 'meta'),
+                            '-dump', 'dot,actionlabels', 'out', 'OutBuf'], cwd=d, capture_output=True, text=True, timeout=600)
+        if 'No error has been found' not in p.stdout:
+            raise RuntimeError('TLC: ' + (p.stdout + p.stderr)[-600:])
+        mm = re.search(r'(\d+) states generated, (\d+) distinct states found', p.stdout)
+        nodes, edges = _parse_dot(open(os.path.join(d, 'out.dot')).read())
+        if len(nodes) != int(mm.group(2)):
+            raise RuntimeError(f"dump parse: {len(nodes)} nodes, TLC reports {mm.group(2)}")
+        return nodes, edges
+    finally:
+        shutil.rmtree(d, ignore_errors=True)
+
+
+def run_tlc_conformance(c):
+    """Refinement check: every transition the real BufferedOutput+ByteWriter takes (all action sequences up to MaxOps)
+    must be an edge of the TLC-explored state graph of tla/OutBuf.tla with Policy = "any" (flush timing is free: the
+    property does not prescribe it).  Informational only: with Policy = "exact" TLC's distinct-state count is compared
+    with the number of states the hand-written explorer reaches on the real code."""
+    from dliswriter.file.writer import BufferedOutput, ByteWriter
+    B, G, K = c['B'], c['G'], c['MaxOps']
+    viol = []
+    try:
+        nodes, edges = _tlc_graph(B, G, K, 'any')
+        nodes_x, _ = _tlc_graph(B, G, K, 'exact')
+    except RuntimeError as e:
+        return Outcome('tlc-failed', [("C10:tlc:harness:model-check-failed", str(e))], False)
+    allowed = {(json_key(nodes[u]), a, json_key(nodes[v])) for u, v, a in edges}
+    fpath = os.path.join(scratch_dir(), 'tlcmachine.bin')
+
+    def run_actions(actions):
+        with open(fpath, 'wb') as f:
+            f.write(b'\xee' * G)
+        w = ByteWriter(fpath)
+        out = BufferedOutput(B, w)
+        states = [{'filled': out._filled_size, 'disk': os.path.getsize(fpath), 'opened': bool(w._append), 'n': 0}]
+        for j, a in enumerate(actions):
+            if a == 'Final':
+                out.pass_bytes_to_writer()
+            else:
+                s_ = int(a[4:-1])
+                out.add_bytes(bytes((j * 37 + k) % 251 for k in range(s_)))
+            states.append({'filled': out._filled_size, 'disk': os.path.getsize(fpath), 'opened': bool(w._append), 'n': j + 1})
+        return states
+
+    init = json_key(run_actions([])[0])
+    if init not in {json_key(st) for st in nodes.values() if st['n'] == 0}:
+        viol.append(("C10:tlc:initial-state-not-in-model", f"B={B} G={G}: {init}"))
+    seen = {init}
+    frontier = deque([[]])
+    replayed = 0
+    while frontier and not viol:
+        h = frontier.popleft()
+        if len(h) >= K:
+            continue
+        for a in ('Add(20)', 'Add(22)', 'Add(24)', 'Final'):
+            sts = run_actions(h + [a])
+            pre, post = json_key(sts[-2]), json_key(sts[-1])
+            replayed += 1
+            if (pre, a, post) not in allowed:
+                viol.append(("C10:tlc:transition-not-allowed-by-model",
+                             f"B={B} G={G}: after {h} the real classes go from {pre} to {post} on {a}; the model "
+                             f"(tla/OutBuf.tla, Policy any) has no such edge"))
+                break
+            if post not in seen:
+                seen.add(post)
+                frontier.append(h + [a])
+    same = len(seen) == len(nodes_x)
+    return Outcome('tlc:refines:' + ('explorer=TLC' if same else 'flush-policy-differs-from-exact-model'), viol, True,
+                   digest=f"{len(nodes)}/{len(edges)}/{len(seen)}",
+                   extra={'nodes': len(seen), 'edges': replayed})
+
+
+def json_key(d):
+    return (d['filled'], d['disk'], d['opened'], d['n'])
